@@ -1,20 +1,28 @@
 ------------------------------ MODULE StorePath ------------------------------
 (***************************************************************************)
-(* C30: whatever SOP Instance UID value a C-STORE request carries, the     *)
-(* storage applications only create or modify files inside their storage   *)
-(* directory (and their database file).  POSIX path semantics over         *)
-(* components: a UID value is a sequence of tokens; "/" separates          *)
-(* components, ".." climbs, an absolute value replaces the directory.      *)
+(* C30: whatever values a C-STORE request carries, the storage             *)
+(* applications only create or modify files inside their storage directory *)
+(* (and their database file).  POSIX path semantics over components: a     *)
+(* value is a sequence of tokens; "/" separates components, ".." climbs,   *)
+(* an absolute value replaces the directory.  The hostile value is put in  *)
+(* the SOP Instance UID or in another peer-controlled attribute a file     *)
+(* name could be built from, for a SOP class with and without a file-name  *)
+(* prefix of its own.                                                      *)
 (***************************************************************************)
 EXTENDS Integers, Sequences, FiniteSets, TLC
 
 CONSTANT MaxTokens
-Tokens == {"1", ".", "..", "/", "a", "bs"}       \* "1" digits, "a" letters, "bs" a backslash
-VARIABLE uid
+\* "1" digits, "a" letters, "bs" a backslash, "sib" the storage directory's own name with a suffix (a sibling of it)
+Tokens == {"1", ".", "..", "/", "a", "bs", "sib"}
+Fields == {"SOPInstanceUID", "Modality", "PatientID", "StudyInstanceUID", "SeriesInstanceUID"}
+SopKinds == {"prefixed", "unprefixed"}       \* a storage SOP class the apps know a file-name prefix for (CT) / one they do not (DX)
+VARIABLES uid, field, sop
 UidOpts == UNION {[1..n -> Tokens] : n \in 1..MaxTokens} \cup {<<"ABS">> \o t : t \in UNION {[1..n -> Tokens] : n \in 1..(MaxTokens - 1)}}
-Init == uid \in UidOpts
-Next == FALSE /\ uid' = uid
-Spec == Init /\ [][Next]_uid
+Hostile(u) == \E k \in 1..Len(u) : u[k] \in {"/", "..", "ABS", "bs", "sib"}
+Init == /\ uid \in UidOpts /\ field \in Fields /\ sop \in SopKinds
+        /\ (field # "SOPInstanceUID" => Hostile(uid))        \* (harmless values in the other attributes are of no interest)
+Next == FALSE /\ UNCHANGED <<uid, field, sop>>
+Spec == Init /\ [][Next]_<<uid, field, sop>>
 
 \* ---- path resolution (shared with Trace_StorePath) ----
 \* comps: sequence of path components relative to a root; Resolve drops "." and applies ".."
@@ -28,5 +36,5 @@ IsPrefix(p, q) == Len(p) <= Len(q) /\ SubSeq(q, 1, Len(p)) = p
 \* file (components from the sandbox root) lies strictly inside dir (components from the sandbox root)
 Inside(dir, file) == LET f == Resolve(<<>>, file) IN IsPrefix(dir, f) /\ Len(f) > Len(dir)
 C30_InsideP(dir, db, touched) == \A k \in 1..Len(touched) : Inside(dir, touched[k]) \/ Resolve(<<>>, touched[k]) = db
-Export == PrintT(<<"CASE", uid>>)
+Export == PrintT(<<"CASE", uid, field, sop>>)
 =============================================================================
